@@ -55,6 +55,8 @@ def configs(tier, seed):
                     'omask': rng.random() < 0.35})
         # planes without arrays around the aperture: a tilt picked up before it, and a default / all-scalar / tilt plane after it
         # (tilt angles are fixed multiples of du/f, so the image displacement is a concrete number of samples)
+        if not out[-1]['omask'] and second is None and rng.random() < 0.3:
+            out[-1]['fft'] = rng.choice([max(nr, nc), max(nr, nc) + 1])          # the FFT propagator on a grid of that many samples per axis
         if out[-1]['omask'] and rng.random() < 0.6:
             # an output mask that is a random rectangle of the oversampled output (bounding boxes of either parity anywhere)
             S0 = (shape[0] * os, shape[1] * os)
@@ -77,6 +79,9 @@ def configs(tier, seed):
         {'n': [2, 3], 'blocks': [[[0, 2], [1, 2]]], 'second': None, 'os': 2, 'shape': [3, 3], 'prop': [3, 3], 'post': 'scalar'},
         {'n': [3, 3], 'blocks': [[[0, 0]], [[2, 2]], [[0, 2]]], 'second': None, 'os': 1, 'shape': [4, 4], 'prop': [4, 4], 'pre': [1, 0], 'post': ['tilt', 0, 1]},
         {'n': [3, 2], 'blocks': [[[0, 0], [1, 1]], [[2, 1]]], 'second': [[[0, 0], [2, 1]], [[1, 1]]], 'os': 1, 'shape': [3, 3], 'prop': [3, 3], 'pre': ['1/2', '-3/4'], 'post': ['tilt', 1, -1]},
+        # planes returned by rescale(): the segmented description is rescaled segment by segment, the result is the same
+        {'n': [2, 3], 'blocks': [[[0, 0], [1, 0]], [[0, 2], [1, 2], [1, 1]]], 'second': None, 'os': 1, 'shape': [2, 2], 'prop': [2, 2], 'rescale': '2'},
+        {'n': [2, 2], 'blocks': [[[0, 0]], [[0, 1], [1, 1]]], 'second': None, 'os': 1, 'shape': [2, 3], 'prop': [2, 3], 'rescale': '2'},
         # one segment given as a one-layer cube
         {'n': [3, 3], 'blocks': [[[0, 1], [1, 1], [1, 2]]], 'second': None, 'os': 1, 'shape': [3, 3], 'prop': [3, 3]},
         {'n': [2, 3], 'blocks': [[[0, 0], [1, 2]]], 'second': [[[0, 0], [0, 1], [1, 2]]], 'os': 2, 'shape': [3, 3], 'prop': [2, 3]},
@@ -118,6 +123,11 @@ def run(W, cfg):
             if union[r, c]:
                 Az[r, c] = A[r, c]
     variants['whole'] = lt.Pupil(amplitude=Az, opd=O, mask=rnp.ones(shp, dtype=int), pixelscale=dx, focal_length=f)
+    if cfg.get('rescale'):
+        from fractions import Fraction as _Fq
+        W.float_constants()
+        sc = _Fq(cfg['rescale'])
+        variants = {k: p_.rescale(W.const(sc) if W.sym else float(sc)) for k, p_ in variants.items() if k != 'whole'}
     second = {}
     if cfg['second']:
         A2 = W.reals('b', shp)
@@ -159,7 +169,12 @@ def run(W, cfg):
                 omask[r0:r1 + 1, c0:c1 + 1] = 1
             else:
                 omask[S0[0] // 2:, : max(1, S0[1] - 1)] = 1          # an off-centre box: the window is clipped, the DFT gets a non-zero shift
-        o = lt.propagate_dft(w, pixelscale=du, shape=tuple(cfg['shape']), prop_shape=tuple(cfg['prop']), oversample=cfg['os'], mask=omask)
+        if cfg.get('fft') and not cfg.get('pre') and not isinstance(cfg.get('post'), list):        # (the FFT propagator refuses tilted wavefronts: C09)
+            Nf = cfg['fft']
+            duf = (lam * f / (Nf * dx[0]), lam * f / (Nf * dx[1]))            # 1/alpha = Nf exactly on both axes
+            o = lt.propagate_fft(w, pixelscale=duf, oversample=1)
+        else:
+            o = lt.propagate_dft(w, pixelscale=du, shape=tuple(cfg['shape']), prop_shape=tuple(cfg['prop']), oversample=cfg['os'], mask=omask)
         f1, i1 = o.field, o.intensity
         f2, i2 = o.field, o.intensity
         W.ob(f'{name}: reading the field again after the intensity gives the same field', f2, f1)
@@ -167,9 +182,11 @@ def run(W, cfg):
         res[name] = (f1, i1)
     S = res['mono'][0].shape
     W.ob('field seg=mono', res['seg'][0], res['mono'][0])
-    W.ob('field whole=mono', res['whole'][0], res['mono'][0])
+    if 'whole' in res:
+        W.ob('field whole=mono', res['whole'][0], res['mono'][0])
     W.ob('intensity seg=mono', res['seg'][1], res['mono'][1])
-    W.ob('intensity whole=mono', res['whole'][1], res['mono'][1])
+    if 'whole' in res:
+        W.ob('intensity whole=mono', res['whole'][1], res['mono'][1])
     if 'cube' in res:
         W.ob('field one-layer cube=mono', res['cube'][0], res['mono'][0])
         W.ob('intensity one-layer cube=mono', res['cube'][1], res['mono'][1])
@@ -177,7 +194,7 @@ def run(W, cfg):
     W.ob('intensity seg coherent', res['seg'][1], W.array([[W.abs2(fs[i, j]) for j in range(S[1])] for i in range(S[0])]))
     # and against the defining sum (ties the common value to C02's reference)
     sup = [tuple(x) for b in cfg['blocks'] for x in b]
-    if not cfg['second'] and not cfg.get('pre') and not cfg.get('post'):
+    if not cfg['second'] and not cfg.get('pre') and not cfg.get('post') and not cfg.get('fft') and not cfg.get('rescale'):
         wr = optics.centre_window(S[0], cfg['prop'][0] * cfg['os'])
         wc = optics.centre_window(S[1], cfg['prop'][1] * cfg['os'])
         samples = [((r, c), optics.phasor(W, A[r, c], O[r, c], lam)) for r, c in sup]
